@@ -10,9 +10,12 @@ import zipfile
 from common import scratch_dir
 
 LEVEL = 'proof'
-MODULES = ['Pysmi.Props.C14']
-LAKE_TARGETS = ['Pysmi.Props.C14']
+MODULES = ['Pysmi.Props.C14', 'Pysmi.Pins.SkelC14']
+LAKE_TARGETS = ['Pysmi.Props.C14', 'Pysmi.Pins.SkelC14']
 THEOREMS = [
+    'Pysmi.Pins.SkelC14.pin_fileReaderGet',
+    'Pysmi.Pins.SkelC14.pin_fileReaderVariants',
+    'Pysmi.Pins.SkelC14.pin_zipReaderGet',
     'Pysmi.Reader.C14_variants_sound',
     'Pysmi.Reader.C14_variants_complete',
     'Pysmi.Reader.C14_variants_default_total',
